@@ -45,7 +45,7 @@ def main():
         # 2. the demonstration
         src = open(demo).read()
         mpi = 'mpi' in src and ('mc-mpi' in src or '<mpi.h>' in src)
-        cxx = 'mpicxx' if mpi else 'g++'
+        cxx = os.environ.get('SEED_DEMO_CXX') or ('mpicxx' if mpi else 'g++')      # (demonstrations that need another compiler / flags: SEED_DEMO_CXX='clang++ -mfma')
         runp = ('mpirun --allow-run-as-root --oversubscribe -np %s ' % np_) if mpi else ''
         res = {}
         for label, root in (('pristine', pristine), ('patched', patched)):
